@@ -3098,6 +3098,55 @@ async def c19_two_senders(w):
     return {"reproduced": not ok, "observed": {"messages_read": [[len(f) for f in m] for m in got], "error": err}, "expected": {"messages": [[len(f) for f in m1], [len(f) for f in m2]]}}
 
 
+async def c19_send_text(w):
+    """Every reply text must reach the wire: a cell whose exception message (or output) holds a lone surrogate - what Python
+    produces for undecodable bytes (os.fsdecode, surrogateescape) - still gets its reply and the closing idle status."""
+    import hmac, hashlib, json as js
+    from custom_components.pyscript.jupyter_kernel import Kernel, DELIM
+    from custom_components.pyscript.eval import AstEval
+    from custom_components.pyscript.function import Function
+    from custom_components.pyscript.global_ctx import GlobalContext, GlobalContextMgr
+    hass = await boot_full()
+    key = "k19"
+    gctx = GlobalContext("jupyter_c19c", global_sym_table={"__name__": "jupyter_c19c"}, manager=GlobalContextMgr)
+    GlobalContextMgr.set("jupyter_c19c", gctx)
+    actx = AstEval("jupyter_c19c", gctx)
+    Function.install_ast_funcs(actx)
+    kernel = Kernel({"key": key, "signature_scheme": "hmac-sha256"}, actx, gctx, "jupyter_c19c")
+    hk = asyncio.get_running_loop().create_task(kernel.housekeep_run())
+    sent = []
+
+    class Cap:
+        def __init__(self, name):
+            self.name = name
+
+        async def send_multipart(self, parts):
+            i = parts.index(DELIM)
+            sent.append((self.name, js.loads(parts[i + 2])["msg_type"], js.loads(parts[i + 5])))
+    kernel.iopub_socket = {Cap("iopub")}
+
+    def request(mid, msg_type, content):
+        header = {"msg_id": mid, "username": "u", "session": "s", "msg_type": msg_type, "version": "5.3", "date": "d"}
+        frames = [js.dumps(header).encode(), b"{}", b"{}", js.dumps(content).encode()]
+        h = hmac.new(key.encode(), digestmod=hashlib.sha256)
+        for f in frames:
+            h.update(f)
+        return [b"id", DELIM, h.hexdigest().encode()] + frames
+    err = None
+    try:
+        await asyncio.wait_for(kernel.shell_handler(Cap("shell"), request("A", "execute_request",
+                               {"code": "raise ValueError('bad name ' + chr(0xdcff))", "silent": False})), 10)
+    except Exception as e:  # noqa
+        err = repr(e)
+    await settle(20)
+    hk.cancel()
+    await shutdown()
+    kinds = [(n, t) for n, t, c in sent]
+    ok = err is None and ("shell", "execute_reply") in kinds and any(t == "status" and c.get("execution_state") == "idle" for n, t, c in sent)
+    return {"reproduced": not ok, "observed": {"messages": kinds, "error": err},
+            "expected": "an execute_reply on the shell stream and a closing idle status; no exception out of the handler"}
+
+
 async def c19_interleaved_parent(w):
     """Two shell connections: request A (a cell that awaits) is suspended while request B is handled; every message caused by A -
     in particular its closing idle status - must carry A's header as parent."""
